@@ -1,5 +1,6 @@
-"""One symbolic job = one process: generate the harness function for the job's
-bound, hand it to CrossHair (z3), report verdict and statistics as JSON.
+"""One symbolic job = one process.  A job is a list of *analyses* (sub-jobs): for
+each, the harness function for that bound is generated, handed to CrossHair (z3),
+and verdict and statistics are collected.  Output: one JSON document.
 
 usage: python -m engine.worker <job.json> <out.json>
 """
@@ -8,6 +9,7 @@ import importlib
 import json
 import os
 import sys
+import threading
 import time
 import traceback
 
@@ -18,7 +20,7 @@ class _State:
     def __init__(self, job):
         self.job = job
         self.harness = importlib.import_module(job['harness'])
-        self.shape = job.get('shape', {})
+        self.shape = {}
         self.weights_mode = job.get('weights', 'distinct')
         self.paths = 0
         self.ok_paths = 0
@@ -26,7 +28,7 @@ class _State:
         self.aborted = 0
         self.abort_samples = []
         self.goal_counts = collections.Counter()
-        self.goal_sets = collections.Counter()
+        self.goal_sets = set()
         self.nontrivial = 0
         self.samples = []
         self.sample_keys = set()
@@ -34,6 +36,8 @@ class _State:
         self.counters = collections.Counter()
         self.z3_queries = 0
         self.z3_time = 0.0
+        self.sub = None
+        self.subs_done = []
 
 
 def _model_values(items, weights):
@@ -83,13 +87,14 @@ def drive(items):
         with NoTracing():
             outcome = 'aborted'
             tb = traceback.format_exc().splitlines()
-            detail = f'{type(e).__name__}: ' + ' | '.join(tb[-6:])
+            detail = f'{type(e).__name__}: ' + ' | '.join(tb[-8:])
     with NoTracing():
         st.counters.update(ctx.counters)
+        sub = st.sub['name']
         if outcome == 'violation':
             args, weights = _model_values(items, ctx.rng.handed)
-            st.failure = {'label': label, 'detail': str(detail)[:2000], 'args': args,
-                          'weights': weights, 'goals': sorted(ctx.goals)}
+            st.failure = {'label': label, 'detail': str(detail)[:2000], 'args': args, 'sub': sub,
+                          'shape': st.shape, 'weights': weights, 'goals': sorted(ctx.goals)}
             return False
         if outcome == 'truncated':
             st.truncated += 1
@@ -97,25 +102,27 @@ def drive(items):
             st.aborted += 1
             if len(st.abort_samples) < 3:
                 args, weights = _model_values(items, ctx.rng.handed)
-                st.abort_samples.append({'detail': detail[:1500], 'args': args, 'weights': weights})
+                st.abort_samples.append({'detail': detail[:1500], 'args': args, 'weights': weights, 'sub': sub,
+                                         'shape': st.shape})
         else:
             st.ok_paths += 1
         gs = frozenset(ctx.goals)
-        for g in gs:
+        for g in gs | ctx.soft_goals:
             st.goal_counts[g] += 1
-        st.goal_sets[gs] += 1
-        if gs:
+        st.goal_sets.add((sub, gs))
+        if gs or ctx.soft_goals:
             st.nontrivial += 1
         if outcome == 'ok' and gs not in st.sample_keys and len(st.samples) < st.job.get('max_samples', 6):
             st.sample_keys.add(gs)
             args, weights = _model_values(items, ctx.rng.handed)
             if args is not None:
-                st.samples.append({'args': args, 'weights': weights, 'goals': sorted(gs)})
+                st.samples.append({'args': args, 'weights': weights, 'goals': sorted(gs), 'sub': sub,
+                                   'shape': st.shape})
     return True
 
 
-def _gen_source(job):
-    params = job['params']
+def _gen_source(sub, fname):
+    params = sub['params']
     sig = ', '.join(f'{p[0]}: int' for p in params)
     pres = []
     for name, lo, hi in params:
@@ -125,12 +132,11 @@ def _gen_source(job):
             pres.append(f'{name} >= {lo}')
         elif hi is not None:
             pres.append(f'{name} <= {hi}')
-    pres += job.get('pre', [])
+    pres += sub.get('pre', [])
     doc = '\n'.join(f'    pre: {p}' for p in pres)
     items = ', '.join(f"('{p[0]}', {p[0]})" for p in params)
-    return (f'from engine.worker import drive as _drive\n\n\n'
-            f'def h({sig}) -> bool:\n    """\n{doc}\n    post: _\n    """\n'
-            f'    return _drive(({items}{"," if params else ""}))\n')
+    return (f'def {fname}({sig}) -> bool:\n    """\n{doc}\n    post: _\n    """\n'
+            f'    return _drive(({items}{"," if params else ""}))\n\n\n')
 
 
 def main():
@@ -153,9 +159,13 @@ def main():
             st.z3_time += time.perf_counter() - t
     z3.Solver.check = counted_check
 
+    subs = job.get('subs') or [{'name': job['name'], 'shape': job.get('shape', {}), 'params': job['params'],
+                                'pre': job.get('pre', [])}]
     workdir = os.path.dirname(os.path.abspath(sys.argv[1]))
     modname = 'h_' + ''.join(c if c.isalnum() else '_' for c in job['name'])
-    src = _gen_source(job)
+    src = 'from engine.worker import drive as _drive\n\n\n'
+    for i, sub in enumerate(subs):
+        src += _gen_source(sub, f'h{i}')
     with open(os.path.join(workdir, modname + '.py'), 'w') as f:
         f.write(src)
     sys.path.insert(0, workdir)
@@ -164,34 +174,82 @@ def main():
     from crosshair.core_and_libs import analyze_function, run_checkables
     from crosshair.options import AnalysisOptionSet, AnalysisKind
     stats = collections.Counter()
-    opts = AnalysisOptionSet(analysis_kind=[AnalysisKind.PEP316],
-                             per_condition_timeout=float(job.get('timeout', 120)),
-                             per_path_timeout=float(job.get('path_timeout', 30)),
-                             report_all=True, stats=stats,
-                             max_uninteresting_iterations=10 ** 9)
-    result = {'job': job['name'], 'harness': job['harness'], 'shape': job.get('shape', {}),
-              'params': job['params'], 'pre': job.get('pre', [])}
-    try:
-        checkables = analyze_function(mod.h, opts)
-        messages = run_checkables(checkables)
-        msgs = [{'state': m.state.name, 'message': m.message[:600]} for m in messages]
-    except BaseException as e:  # noqa
-        msgs = [{'state': 'WORKER_CRASH', 'message': ''.join(traceback.format_exception_only(type(e), e))[:800]
-                 + ' | '.join(traceback.format_exc().splitlines()[-8:])}]
-    states = {m['state'] for m in msgs}
+    total_budget = float(job.get('timeout', 120))
+    done = threading.Event()
+
+    def watchdog():
+        # z3 does not always honour its query timeout; never lose the statistics of a job
+        if not done.wait(total_budget + 45):
+            if st.sub is not None:
+                st.subs_done.append({'name': st.sub['name'], 'verdict': 'inconclusive', 'states': ['WATCHDOG']})
+            _finish(st, stats, subs, out_path, t0)
+            os._exit(0)
+    threading.Thread(target=watchdog, daemon=True).start()
+
+    for i, sub in enumerate(subs):
+        remaining = total_budget - time.process_time()
+        if remaining <= 1:
+            st.subs_done.append({'name': sub['name'], 'verdict': 'inconclusive', 'states': ['NOT_STARTED']})
+            continue
+        st.sub = sub
+        st.shape = sub.get('shape', {})
+        st.weights_mode = sub.get('weights', job.get('weights', 'distinct'))
+        before = (st.truncated, st.aborted, st.paths)
+        opts = AnalysisOptionSet(analysis_kind=[AnalysisKind.PEP316],
+                                 per_condition_timeout=min(float(sub.get('timeout', total_budget)), remaining),
+                                 per_path_timeout=float(job.get('path_timeout', 30)),
+                                 report_all=True, stats=stats,
+                                 max_uninteresting_iterations=10 ** 9)
+        try:
+            messages = run_checkables(analyze_function(getattr(mod, f'h{i}'), opts))
+            msgs = [{'state': m.state.name, 'message': m.message[:600]} for m in messages]
+        except BaseException as e:  # noqa
+            msgs = [{'state': 'WORKER_CRASH', 'message': ''.join(traceback.format_exception_only(type(e), e))[:800]
+                     + ' | '.join(traceback.format_exc().splitlines()[-8:])}]
+        states = {m['state'] for m in msgs}
+        if st.failure is not None:
+            v = 'refuted'
+        elif states & {'WORKER_CRASH', 'EXEC_ERR', 'POST_ERR', 'SYNTAX_ERR', 'IMPORT_ERR'}:
+            v = 'error'
+        elif 'PRE_UNSAT' in states:
+            v = 'pre_unsat'
+        elif states == {'CONFIRMED'} and (st.truncated, st.aborted) == before[:2]:
+            v = 'confirmed'
+        else:
+            v = 'inconclusive'
+        d = {'name': sub['name'], 'verdict': v, 'states': sorted(states), 'paths': st.paths - before[2]}
+        if v in ('error', 'pre_unsat'):
+            d['messages'] = msgs
+        st.subs_done.append(d)
+        if v in ('refuted', 'error'):
+            break
+    done.set()
+    _finish(st, stats, subs, out_path, t0)
+
+
+def _finish(st, stats, subs, out_path, t0):
+    job = st.job
+    vs = [d['verdict'] for d in st.subs_done]
     if st.failure is not None:
         verdict = 'refuted'
-    elif 'WORKER_CRASH' in states or 'EXEC_ERR' in states or 'POST_ERR' in states or 'SYNTAX_ERR' in states \
-            or 'IMPORT_ERR' in states:
+    elif 'error' in vs:
         verdict = 'error'
-    elif 'PRE_UNSAT' in states:
+    elif 'pre_unsat' in vs:
         verdict = 'pre_unsat'
-    elif states == {'CONFIRMED'} and st.truncated == 0 and st.aborted == 0:
+    elif len(vs) == len(subs) and all(v == 'confirmed' for v in vs):
         verdict = 'confirmed'
     else:
         verdict = 'inconclusive'
-    result.update({
-        'verdict': verdict, 'messages': msgs,
+    msgs = []
+    for d in st.subs_done:
+        if d['verdict'] in ('error', 'pre_unsat'):
+            msgs += [dict(m, sub=d['name']) for m in d.get('messages', [])][:3]
+    result = {
+        'job': job['name'], 'harness': job['harness'],
+        'verdict': verdict, 'messages': msgs[:6],
+        'analyses': len(subs), 'analyses_confirmed': vs.count('confirmed'),
+        'analyses_inconclusive': [d['name'] for d in st.subs_done if d['verdict'] == 'inconclusive'][:20]
+        + [s['name'] for s in subs[len(st.subs_done):]][:20] if verdict != 'refuted' else [],
         'paths': st.paths, 'ok_paths': st.ok_paths, 'truncated': st.truncated, 'aborted': st.aborted,
         'abort_samples': st.abort_samples,
         'goal_counts': dict(st.goal_counts), 'nontrivial_paths': st.nontrivial,
@@ -200,7 +258,7 @@ def main():
         'z3_queries': st.z3_queries, 'z3_time': round(st.z3_time, 3),
         'cpu_s': round(time.process_time(), 2), 'wall_s': round(time.time() - t0, 2),
         'crosshair_num_paths': stats.get('num_paths', 0),
-    })
+    }
     with open(out_path, 'w') as f:
         json.dump(result, f)
 
